@@ -304,4 +304,14 @@ def splitIntoBlocks (tokens : List (List Int)) (eids canExo exo endo : List Int)
 def humanBlock (eqName qName : Int → String) (b : List Int × List Int) : List String × List String :=
   (b.1.map eqName, b.2.map qName)
 
+/-! ### incidence tokens with shifts -/
+
+/-- an incidence token of an equation: (name, shift) -/
+abbrev STok := Nat × Int
+
+/-- what `Sequential.incidence_matrix` keeps of an equation's tokens: `tok.shift == 0` (lags **and leads**
+of a name are not within-period dependencies) -/
+def SEq.ofTokens (lhs : Nat) (toks : List STok) : SEq :=
+  ⟨lhs, (toks.filter fun t => t.2 == 0).map (·.1)⟩
+
 end IrisVerif.Blazer
